@@ -10,13 +10,14 @@
    4 lp       [4; m; e; x..] (pad = m * 2^-e) -> lpad :: enc_zlist (padded) ++ enc_zlist (cropped)
    5 savgol   [5; window; polynom; n; x..; y..] over Q -> 0 :: code | 1 :: n :: (floor v; floor (frac v * 2^40)) x n
    8 stack    [8; ntr; ns; word..; data..] integer data, default fcn_agg=np.nanmean: truncated means
+   12 ranks   [12; nc] -> int(rank*n/nc), int(rank*(n/nc)), int((rank/nc)*n) in binary64 for all 1 <= n, rank <= nc
    11 venn    [11; n; xbin; ybin; nchan; cn; cd; trains..] chunk size cn/cd (float chunk sizes)
    10 stack   [10; ntr; nkeys; word..; header vectors..] -> per-key per-label sums of the header, fold
    9 svd      [9; nc; rank (0 = None); collection..] -> groups (rank; size; indices) and the scatter result
    6 traj     [6; nc; x..; y..] -> nrows :: ncols :: enc_zlist entries ++ enc_zlist trcount *)
 From Coq Require Import ZArith List Bool QArith Qreduction.
 From IBL.lib Require Import PyInt RunLib.
-From IBL.C20 Require Import Model.
+From IBL.C20 Require Import Model RankForms.
 Import ListNotations.
 Open Scope Z_scope.
 
@@ -49,6 +50,14 @@ Definition run_venn_q (l : list Z) : list Z :=
   match l with
   | n :: xbin :: ybin :: nchan :: cn :: cd :: r =>
       enc_option enc_zlist (venn_q xbin ybin nchan cn cd (dec_trains (Z.to_nat n) r))
+  | _ => [-999]
+  end.
+
+(* the three float forms of the per-collection rank: [nc] -> for n = 1..nc, rank = 1..nc:
+   form_code; form_prop; form_ratio  (integer model of binary64, RankForms.v) *)
+Definition run_rank_forms (l : list Z) : list Z :=
+  match l with
+  | [nc] => flat_map (fun n => flat_map (fun r => [form_code r n nc; form_prop r n nc; form_ratio r n nc]) (zr 1 nc)) (zr 1 nc)
   | _ => [-999]
   end.
 
@@ -206,6 +215,7 @@ Definition run (inp : list Z) : list Z :=
   | 9 :: r => run_svd r
   | 10 :: r => run_stack_header r
   | 11 :: r => run_venn_q r
+  | 12 :: r => run_rank_forms r
   | _ => [-999]
   end.
 
